@@ -237,3 +237,32 @@ Definition build_line_index (s : text) : list N := 0 :: line_index_at s 0.
     strictly increasing index = the number of line starts <= offset *)
 Definition line_of_offset (index : list N) (offset : N) : N :=
   len (filter (fun st => st <=? offset) index).
+
+(** ** string_usage_span (analyzer.rs, since fix d199d81): the search loop, slice by slice.
+    [src[from..]], [src[..at]] and [src[at + name.len()..]] panic off a character boundary;
+    [identc c] stands for [c.is_alphanumeric() || c == '_'] (Unicode tables: an oracle).
+    [step at n] is the cursor after a rejected occurrence: the code uses [at + n]. *)
+Section StrSpanRes.
+  Variable identc : cp -> bool.
+  Definition last_of (s : text) : option cp := match rev s with c :: _ => Some c | [] => None end.
+  Fixpoint token_loop (step : N -> N -> N) (fuel : nat) (name src : text) (from : N) : res (option N) :=
+    match fuel with
+    | O => OutOfFuel
+    | S f =>
+        if blen src <? from then Ok None else
+        of_opt (slice_from src from) >>= fun rest =>
+        match find name rest with
+        | None => Ok None
+        | Some k =>
+            let at_ := from + k in
+            of_opt (slice_to src at_) >>= fun pre =>
+            of_opt (slice_from src (at_ + blen name)) >>= fun post =>
+            let before_ok := match last_of pre with Some c => negb (identc c) | None => true end in
+            let after_ok := match post with c :: _ => negb (identc c) | [] => true end in
+            if before_ok && after_ok then Ok (Some at_) else token_loop step f name src (step at_ (blen name))
+        end
+    end.
+  Definition string_usage_token : nat -> text -> text -> N -> res (option N) := token_loop (fun at_ n => at_ + n).
+  (** the cursor advanced by one BYTE instead (a plausible clean-up, seeded change S44) *)
+  Definition string_usage_token_plus_one : nat -> text -> text -> N -> res (option N) := token_loop (fun at_ _ => at_ + 1).
+End StrSpanRes.
